@@ -272,6 +272,35 @@ func main() {
 		}
 	}
 
+	// 2b. every saved case is re-decided from scratch (fresh process, fresh child, full deadlines)
+	// before it is reported; schedule-dependent properties keep the observed witness instead
+	if id != "C09" && id != "C10" && len(violations) > 0 {
+		keep := make([]bool, len(violations))
+		var wg2 sync.WaitGroup
+		for i, v := range violations {
+			if !strings.Contains(v, string(filepath.Separator)+"found"+string(filepath.Separator)) {
+				keep[i] = true
+				continue
+			}
+			wg2.Add(1)
+			go func(i int, v string) {
+				defer wg2.Done()
+				code, _ := replay(v, cfg.Race)
+				keep[i] = code == 1
+			}(i, v)
+		}
+		wg2.Wait()
+		var kept []string
+		for i, v := range violations {
+			if keep[i] {
+				kept = append(kept, v)
+			} else {
+				inconclusive = append(inconclusive, "a failure did not reproduce from its saved case "+v)
+			}
+		}
+		violations = kept
+	}
+
 	// 3. merge statistics
 	merged := shardStats{Classes: map[string]int{}}
 	nt := map[uint64]struct{}{}
